@@ -80,14 +80,15 @@ Proof.
   specialize (N E). apply N. exact Hz.
 Qed.
 
-(* contract of polyroots (+ the 1e-4 imaginary-part filter): for a polynomial that is not identically zero, every real root
-   in [-1, 1] is returned (extra points are harmless: "Ok if we add unnecessary points") *)
-Definition roots_ok (roots : nat -> nat -> list R -> list R) : Prop :=
-  forall s i dp x, (exists y, pv dp y <> 0) -> in11 x -> pv dp x = 0 -> In x (roots s i dp).
+(* contract of polyroots (+ the 1e-4 imaginary-part filter) on the polynomials of the domain Dom: for a polynomial that is not
+   identically zero, every real root in [-1, 1] is returned (extra points are harmless: "Ok if we add unnecessary points") *)
+Definition roots_ok_on (Dom : list R -> Prop) (roots : nat -> nat -> list R -> list R) : Prop :=
+  forall s i dp x, Dom dp -> (exists y, pv dp y <> 0) -> in11 x -> pv dp x = 0 -> In x (roots s i dp).
 
 Section Cands.
+Variable Dom : list R -> Prop.
 Variable roots : nat -> nat -> list R -> list R.
-Hypothesis RO : roots_ok roots.
+Hypothesis RO : roots_ok_on Dom roots.
 
 Lemma cand_endpoints s i p : In (-1) (cand_points OR roots s i p) /\ In 1 (cand_points OR roots s i p).
 Proof.
@@ -104,10 +105,10 @@ Proof.
     destruct (Req_EM_T 1 y) as [<-|]; [exact Hy|discriminate].
   - split; apply in_or_app; [left; exact A|right; left; reflexivity].
 Qed.
-Lemma cand_critical s i p x : (exists y, pv (polyder OR p) y <> 0) -> in11 x -> pv (polyder OR p) x = 0 ->
+Lemma cand_critical s i p x : Dom (polyder OR p) -> (exists y, pv (polyder OR p) y <> 0) -> in11 x -> pv (polyder OR p) x = 0 ->
   In x (cand_points OR roots s i p).
 Proof.
-  intros NZ Hx H0. unfold cand_points.
+  intros HD NZ Hx H0. unfold cand_points.
   set (x0 := filter (in_clip OR) (if Nat.eqb (length (polyder OR p)) 0 then [] else roots s i (polyder OR p))).
   assert (A : In x x0).
   { unfold x0. apply filter_In. split.
@@ -120,9 +121,9 @@ Proof.
   destruct (existsb _ x1); [exact B|apply in_or_app; left; exact B].
 Qed.
 (* the candidate list of _find_poly_max carries a maximiser of |p| over [-1, 1] *)
-Theorem cand_absmax s i p z : in11 z -> exists c, In c (cand_points OR roots s i p) /\ Rabs (pv p z) <= Rabs (pv p c).
+Theorem cand_absmax s i p z : Dom (polyder OR p) -> in11 z -> exists c, In c (cand_points OR roots s i p) /\ Rabs (pv p z) <= Rabs (pv p c).
 Proof.
-  intros Hz. destruct (cand_endpoints s i p) as [Em Ep].
+  intros HD Hz. destruct (cand_endpoints s i p) as [Em Ep].
   destruct (classic (exists y, pv (polyder OR p) y <> 0)) as [NZ|Z].
   - apply poly_absmax; auto. intros x Hx H0. apply cand_critical; auto. unfold in11. lra.
   - exists (-1). split; [exact Em|]. rewrite (poly_const p); [lra| |exact Hz].
